@@ -192,15 +192,24 @@ def make_ipmi(handler, cap=100000):
 
 
 class FakeTime(object):
-    """Stands in for the `time` module inside pyipmi.helper: sleeping costs nothing, is recorded."""
+    """Stands in for the `time` module inside pyipmi.helper: sleeping costs nothing, is recorded - but the ARGUMENT is
+    treated as the real time.sleep treats it (sim/realsleep.py): a negative / NaN duration raises ValueError, a
+    non-number TypeError, and the rejected call is remembered in `rejected` (repr of the argument, exception name)."""
 
     def __init__(self):
         self.sleeps = []
+        self.rejected = []
         self.now = 0.0
 
     def sleep(self, s):
-        self.sleeps.append(s)
-        self.now += s
+        from . import realsleep
+        try:
+            d = realsleep.duration(s)
+        except Exception as e:  # noqa
+            self.rejected.append((repr(s), type(e).__name__, str(e)))
+            raise
+        self.sleeps.append(d)
+        self.now += d
 
     def time(self):
         return self.now
